@@ -133,4 +133,10 @@ def replay(case, ctx):
 
 def classify(case, detail):
     if case.get('op') == 'utf8-trunc-eof': return 'C02-truncated-utf8-at-eof'
+    if case.get('finding') == 'C02-extsubset-ends-with-peref' and "'194'" in detail: return 'C02-extsubset-ends-with-peref'
     return None
+
+def known_witnesses():
+    import json, os
+    p = os.path.join(xv.VERIF, 'regress-known', 'C02', 'extsubset_ends_with_peref.json')
+    return [('C02-extsubset-ends-with-peref', json.load(open(p))['case'])] if os.path.exists(p) else []
